@@ -145,6 +145,38 @@ def kwdir_path(scratch, form):
             "abs_slash": full + os.sep}.get(form or "abs", full)
 
 
+_CLEANUP_LINES = {}
+
+
+def cleanup_lines(files):
+    """(file, line) pairs where no fault is injected: `with` headers and the
+    bodies of finally / except clauses."""
+    import ast
+
+    out = set()
+    for f in sorted(files):
+        if f not in _CLEANUP_LINES:
+            lines = set()
+            try:
+                with fsim._real_open(f, "rb") as fh:
+                    tree = ast.parse(fh.read())
+            except (OSError, SyntaxError):
+                tree = None
+            if tree is not None:
+                for node in ast.walk(tree):
+                    if isinstance(node, (ast.With, ast.AsyncWith)):
+                        first = node.body[0].lineno if node.body else node.lineno + 1
+                        lines.update(range(node.lineno, first))
+                    elif isinstance(node, ast.Try):
+                        for part in list(node.finalbody) + [st for h in node.handlers for st in h.body]:
+                            lines.update(range(part.lineno, (part.end_lineno or part.lineno) + 1))
+                        for h in node.handlers:
+                            lines.add(h.lineno)
+            _CLEANUP_LINES[f] = lines
+        out.update((f, ln) for ln in _CLEANUP_LINES[f])
+    return frozenset(out)
+
+
 def import_repo():
     import multidecoder
 
@@ -265,6 +297,9 @@ class W09:
         sc = self.scanners[sid]
         data = self.corpus[i]
         h = len(data) // 2
+        mz = data.find(b"MZ")
+        if 0 < mz < len(data) - 1:
+            h = mz  # keep an embedded PE image whole (half an image makes scan spin: findings/observation-C01-...)
         root = Node("", data, "", 0, len(data), children=[Node("part", data[:h], "", 0, h), Node("part", data[h:], "", h, len(data))])
         self.counters["scans"] += 1
         try:
@@ -343,6 +378,7 @@ class W09:
         self.counters["aborts_injected"] = self.counters.get("aborts_injected", 0) + 1
         KERNEL.begin_run(sched.Policy(), scope, hang_limit=SEQ_STEP_LIMIT, lib_scope=scope, engine=scope_files("engine"))
         KERNEL.abort_at = (at, InjectedAbort)
+        KERNEL.abort_skip = cleanup_lines(scope)
         try:
             with watchdog(OP_LIMIT * 2):
                 at_task = KERNEL.run_tasks([fn], real_timeout=PAR_LIMIT)[0]
